@@ -11,6 +11,8 @@ CONSTANTS DevMappedPass,      \* TRUE: IPv4-mapped IPv6 text is not looked into 
           DevBench19Pass,     \* TRUE: only 198.18.0.0/16 of the benchmark /15 is filtered (historical)
           DevSelfUnfiltered,  \* TRUE: the STUN-reported self endpoint is appended to the hints without filter or mode (historical)
           DevWarnLeak,        \* TRUE: candidates withheld in warn mode still become manifest hints (historical)
+          DevStaleSurvivesOff,\* TRUE: with auto-advertise off, refresh returns before it strips the auto entries an earlier start left in the list
+          Prevs,              \* what an earlier start of the same node (auto mode on, private allowed) left behind: "none", "pub", "priv"
           Modes, Allows, Ctls \* configuration dimensions
 
 \* ---- boundary addresses -----------------------------------------------------------------
@@ -49,8 +51,12 @@ CtlAddr(c) == CASE c = "any" -> [fam |-> 4, a |-> <<0, 0, 0, 0>>] [] c = "loopba
 NoStun == [fam |-> 0, a |-> <<>>]
 
 VARIABLE hist
-Init == \E mode \in Modes, allow \in Allows, ctl \in Ctls, s \in Addrs \cup {NoStun} :
-           hist = [mode |-> mode, allow |-> allow, ctl |-> ctl, stun |-> s]
+\* the earlier start's STUN answer: a routable address / a private one (published then because private advertising was allowed)
+PrevAddr(p) == IF p = "pub" THEN [fam |-> 4, a |-> <<45, 64, 61, 85>>] ELSE [fam |-> 4, a |-> <<192, 168, 1, 23>>]
+HistoryStuns == {NoStun, [fam |-> 4, a |-> <<8, 8, 8, 8>>], [fam |-> 4, a |-> <<10, 1, 2, 3>>]}    \* histories are combined with these answers only
+Init == \E mode \in Modes, allow \in Allows, ctl \in Ctls, s \in Addrs \cup {NoStun}, prev \in Prevs :
+           /\ (prev = "none" \/ s \in HistoryStuns)
+           /\ hist = [mode |-> mode, allow |-> allow, ctl |-> ctl, stun |-> s, prev |-> prev]
 Next == UNCHANGED hist
 Spec == Init /\ [][Next]_hist
 
@@ -99,11 +105,17 @@ DesignAuto(c) ==
         hints == [i \in DOMAIN inferred |-> [where |-> "hint", fam |-> inferred[i].host.fam, a |-> inferred[i].host.a]]
                  \o [i \in DOMAIN hintCands |-> [where |-> "hint", fam |-> hintCands[i].host.fam, a |-> hintCands[i].host.a]]
         self == IF DevSelfUnfiltered /\ c.stun.fam # 0 /\ Valid(c.stun) THEN <<[where |-> "hint", fam |-> c.stun.fam, a |-> c.stun.a]>> ELSE <<>>
-    IN adv \o hints \o self
+        \* refresh_advertised_endpoints strips every non-manual entry before anything else, so nothing of an earlier start survives;
+        \* if the strip came after the early return for mode off, the old entry would stay listed and feed the transport hints
+        stale == IF DevStaleSurvivesOff /\ c.mode = "off" /\ c.prev # "none"
+                 THEN <<[where |-> "advertised", fam |-> PrevAddr(c.prev).fam, a |-> PrevAddr(c.prev).a], [where |-> "hint", fam |-> PrevAddr(c.prev).fam, a |-> PrevAddr(c.prev).a]>>
+                 ELSE <<>>
+    IN adv \o hints \o self \o stale
 
 C34_DesignMeetsContract == PublishClauses(hist.mode, hist.allow, DesignCands(hist), DesignAuto(hist)) = {}
 C34_ClassifierMeetsContract == hist.stun.fam = 0 \/ ClassifyClauses(hist.stun.fam, hist.stun.a, CodeBlocked(hist.stun)) = {}
 \* vacuity guards (must be violated)
 Reach_PublicPublished == ~(~hist.allow /\ hist.mode = "on" /\ DesignAuto(hist) # <<>>)
+Reach_OffAfterHistory == ~(hist.mode = "off" /\ hist.prev = "priv" /\ ~hist.allow)
 Reach_WarnConflict == ~(hist.mode = "warn" /\ Conflict(DesignCands(hist)))
 =============================================================================
